@@ -16,6 +16,7 @@ import (
 	"github.com/youchainhq/go-youchain/crypto"
 	"github.com/youchainhq/go-youchain/params"
 	"github.com/youchainhq/go-youchain/rlp"
+	"github.com/youchainhq/go-youchain/youdb"
 	"verif/harness/drive"
 	"verif/harness/fixture"
 )
@@ -49,6 +50,11 @@ type world struct {
 	aIdx   map[common.Address]int
 	vIdx   map[common.Address]int
 	frozen []*state.StateDB // copies (or originals) that nobody writes to any more
+	// the node database: db is a cache (trie.Database) over disk; only flushed roots survive a restart
+	disk       youdb.Database
+	lastCommit [3]common.Hash
+	flushed    [3]common.Hash
+	unflushed  [][3]common.Hash // committed root triples never flushed (the last one may be lastCommit)
 }
 
 func newWorld() *world {
@@ -60,12 +66,25 @@ func newWorld() *world {
 	for i := 1; i <= nVals; i++ {
 		w.vIdx[w.vals[i].Addr] = i
 	}
-	st, db := fixture.NewMemState()
+	w.disk = youdb.NewMemDatabase()
+	db := state.NewDatabase(w.disk)
+	st, err := state.New(common.Hash{}, common.Hash{}, common.Hash{}, db)
+	if err != nil {
+		panic(err)
+	}
 	st.AddBalance(w.accts[1].Addr, big.NewInt(balBase))
 	r1, r2, r3, err := st.Commit(true)
 	if err != nil {
 		panic(err)
 	}
+	// the starting state is on disk, as every block's state is (core/blockchain.go WriteBlockWithState)
+	for _, r := range []common.Hash{r1, r2, r3} {
+		if err := db.TrieDB().Commit(r, false); err != nil {
+			panic(err)
+		}
+	}
+	w.lastCommit = [3]common.Hash{r1, r2, r3}
+	w.flushed = w.lastCommit
 	st2, err := state.New(r1, r2, r3, db)
 	if err != nil {
 		panic(err)
@@ -496,6 +515,12 @@ func (w *world) apply(op *Op, ev map[string]interface{}) {
 		}
 		ev["roots"] = fixture.Roots(a, b, c)
 		ev["live"] = w.getterDump(st)
+		if t := [3]common.Hash{a, b, c}; t != w.lastCommit {
+			w.lastCommit = t
+			if t != w.flushed {
+				w.unflushed = append(w.unflushed, t)
+			}
+		}
 		re, err := state.New(a, b, c, w.db)
 		if err != nil {
 			ev["re"] = &dump{Err: err.Error()}
@@ -513,6 +538,66 @@ func (w *world) apply(op *Op, ev map[string]interface{}) {
 				panic(err)
 			}
 		}
+	case "Flush":
+		// what WriteBlockWithState does after state.Commit: the three roots go to disk
+		for _, r := range w.lastCommit {
+			if err := w.db.TrieDB().Commit(r, false); err != nil {
+				panic(err)
+			}
+		}
+		w.flushed = w.lastCommit
+		keep := w.unflushed[:0]
+		for _, t := range w.unflushed {
+			if t != w.flushed {
+				keep = append(keep, t)
+			}
+		}
+		w.unflushed = keep
+		// what a restarted node would read: a FRESH state.Database (empty cache) over the same disk; a throw-away object
+		fresh := state.NewDatabase(w.disk)
+		re, err := state.New(w.flushed[0], w.flushed[1], w.flushed[2], fresh)
+		if err != nil {
+			ev["disk"], ev["diskraw"] = &dump{Err: err.Error()}, &dump{Err: err.Error()}
+			break
+		}
+		ev["disk"] = w.getterDump(re)
+		ev["diskraw"] = w.enumDump(re)
+	case "GC":
+		// drop the older, never flushed roots from the cache, then write the rest of the cache out
+		n := 0
+		for _, t := range w.unflushed {
+			if t == w.lastCommit {
+				continue
+			}
+			for i, r := range t {
+				if r != w.lastCommit[i] && r != w.flushed[i] {
+					w.db.TrieDB().Dereference(r)
+					n++
+				}
+			}
+		}
+		keep := w.unflushed[:0]
+		for _, t := range w.unflushed {
+			if t == w.lastCommit {
+				keep = append(keep, t)
+			}
+		}
+		w.unflushed = keep
+		if err := w.db.TrieDB().Cap(0); err != nil {
+			panic(err)
+		}
+		ev["dereferenced"] = n
+	case "Restart":
+		w.db = state.NewDatabase(w.disk)
+		re, err := state.New(w.flushed[0], w.flushed[1], w.flushed[2], w.db)
+		if err != nil {
+			panic(err)
+		}
+		w.st = re
+		w.lastCommit = w.flushed
+		w.unflushed = nil
+		ev["live"] = w.getterDump(re)
+		ev["raw"] = w.enumDump(re)
 	case "Copy", "CopySwap":
 		cp := st.Copy()
 		ev["orig"] = w.getterDump(st)
